@@ -40,6 +40,18 @@ class Stub:
         return self.c[n]
 
 
+def apply_reg(reg, model):
+    """value of a regularizer on a model; an exception is an outcome (nan), not a crash of the check"""
+    try:
+        return float(reg(model))
+    except Exception as ex:
+        apply_reg.last = '%s: %s' % (type(ex).__name__, str(ex)[:160])
+        return float('nan')
+
+
+apply_reg.last = None
+
+
 def dy(rng, lo, hi, bits=6):
     """dyadic rational in [lo,hi] with `bits` fractional bits"""
     return Fraction(rng.randint(int(lo * 2 ** bits), int(hi * 2 ** bits)), 2 ** bits)
@@ -137,14 +149,62 @@ def run(ctx):
             above = any(m[1] > m[2] for m in ms)
             oracle('derived', math.isfinite(v2) and (v2 > v * (1 + 1e-6) if above else v2 >= v), 'duccio-not-growing-with-excess', dict(info, impl_grown=v2, note='second call on the same regularizer with every cost raised by 3'))
             oracle('derived', [float(x) for x in d.final_strengths] == fs, 'final-strengths-change-between-calls', dict(info, strengths_after_second_call=[float(x) for x in d.final_strengths]))
+    # ---- (a2) costs BARELY above (or below) large targets: a relative excess of 2^-18 .. 2^-12, exactly representable in
+    #           float32 (20000.125 parameters against a budget of 20000): still a violated constraint, still a positive penalty
+    for i in range(60 if ctx.quick else 600):
+        k = ctx.rng.randint(1, 3)
+        ms = []
+        for _ in range(k):
+            t = Fraction(ctx.rng.randint(1, 15) * 2 ** ctx.rng.randint(10, 18))
+            rel = Fraction(1, 2 ** ctx.rng.randint(12, 18))
+            where = ctx.rng.choice(['barely-above', 'barely-above', 'barely-below', 'at'])
+            c = t * (1 + rel) if where == 'barely-above' else t * (1 - rel) if where == 'barely-below' else t
+            ms.append((dy(ctx.rng, 0.02, 8, bits=8), c, t))
+        n = ctx.rng.randint(1, 20)
+        e = ctx.rng.randint(0, n)
+        names = ['m%d' % j for j in range(k)]
+        st = Stub(torch, {nm: m[1] for nm, m in zip(names, ms)})
+        assert all(Fraction(float(st.c[nm])) == m[1] for nm, m in zip(names, ms))
+        d = DUCCIO({nm: torch.tensor(float(m[2])) for nm, m in zip(names, ms)}, final_strengths=tuple(torch.tensor(float(m[0])) for m in ms))
+        v = d(st, epoch=e, n_epochs=n)
+        cases.append({'kind': 'given', 'ms': ms, 'e': e, 'n': n, 'impl': float(v), 'grads': []})
+        info = {'metrics(strength,cost,target)': ms, 'epoch': e, 'n_epochs': n, 'impl': float(v), 'note': 'costs within a relative 2^-12 of their targets'}
+        oracle('given', math.isfinite(float(v)) and float(v) >= 0, 'duccio-negative', info)
+        oracle('given', (float(v) == 0.0) == all(m[1] <= m[2] for m in ms), 'duccio-zero-iff', info)
+    # ---- (d0) models that hand out a STORED cost tensor (the same object at every call; plain, or computed from a parameter):
+    #           applying a regularizer twice gives the same value twice and leaves the model's own cost as it was
+    class Stored:
+        def __init__(self, values, graph):
+            self.p = torch.nn.Parameter(torch.ones(()))
+            self.c = {k_: (self.p * float(v_)) if graph else torch.tensor(float(v_)) for k_, v_ in values.items()}
+
+        def get_cost(self, nm):
+            return self.c[nm]
+    for i in range(24):
+        s_, c_ = dy(ctx.rng, 0.001, 4, bits=10), dy(ctx.rng, 1, 5000, bits=3)
+        graph = i % 2 == 0
+        for what in ('base', 'duccio'):
+            st = Stored({'params': c_}, graph)
+            reg = BaseRegularizer('params', float(s_)) if what == 'base' else DUCCIO({'params': torch.tensor(float(c_) / 2)}, final_strengths=(torch.tensor(float(s_)),))
+            want = float(s_ * c_) if what == 'base' else float(s_ * c_ / 2)
+            try:
+                vs = [float(reg(st)) for _ in range(3)]
+                after = float(st.get_cost('params'))
+                out = None
+            except Exception as ex:
+                vs, after, out = [], None, '%s: %s' % (type(ex).__name__, str(ex)[:120])
+            ctx.case(('stored-cost', what, graph, str(s_), str(c_)), nontrivial=True, kind='stored-cost-tensor:' + what)
+            oracle('stored', out is None and all(abs(v - want) <= 1e-5 * max(1.0, want) for v in vs) and after is not None and abs(after - float(c_)) <= 1e-6 * float(c_),
+                   'regularizer-changes-the-cost-it-was-handed', {'regularizer': what, 'strength': s_, 'cost': c_, 'cost_is_computed_from_a_parameter': graph,
+                                                                   'three_successive_values': vs, 'expected_each': want, 'model_cost_afterwards': after, 'exception': out})
     # ---- (d) default arguments and BaseRegularizer
     basecases = []
     for i in range(40):
         s, c = dy(ctx.rng, 0.001, 4, bits=10), dy(ctx.rng, 0, 5000, bits=3)
         st = Stub(torch, {'params': c})
-        v = float(BaseRegularizer('params', float(s))(st))
+        v = apply_reg(BaseRegularizer('params', float(s)), st)
         basecases.append((s, c, v))
-        oracle('base', abs(v - float(s * c)) <= 1e-6 * max(1.0, float(s * c)), 'base-not-strength-times-cost', {'strength': s, 'cost': c, 'impl': v})
+        oracle('base', abs(v - float(s * c)) <= 1e-6 * max(1.0, float(s * c)), 'base-not-strength-times-cost', {'strength': s, 'cost': c, 'impl': v, 'exception': apply_reg.last if v != v else None})
         ms = gen_metrics(ctx.rng, 2)
         st = Stub(torch, {'a': ms[0][1], 'b': ms[1][1]})
         d = DUCCIO({'a': torch.tensor(float(ms[0][2])), 'b': torch.tensor(float(ms[1][2]))}, final_strengths=(torch.tensor(float(ms[0][0])), torch.tensor(float(ms[1][0]))))
@@ -178,13 +238,13 @@ def run(ctx):
             class IStub:
                 def get_cost(self, n, c_=c_, dt=dt):
                     return torch.tensor(c_, dtype=dt)
-            v = float(BaseRegularizer('params', float(s_))(IStub()))
+            v = apply_reg(BaseRegularizer('params', float(s_)), IStub())
             basecases.append((s_, Fraction(c_), v))
             oracle('base', abs(v - float(s_ * c_)) <= 1e-6 * max(1.0, float(s_ * c_)), 'base-not-strength-times-cost', {'strength': s_, 'cost': c_, 'cost_dtype': str(dt), 'impl': v})
     # ---- (d3) strength exactly zero (first point of a strength sweep): the result is 0 x cost
     for c_ in (1500, 1, 0):
         for z in (0, 0.0):
-            v = float(BaseRegularizer('params', z)(Stub(torch, {'params': c_})))
+            v = apply_reg(BaseRegularizer('params', z), Stub(torch, {'params': c_}))
             basecases.append((Fraction(0), Fraction(c_), v))
             oracle('base', v == 0.0, 'base-not-strength-times-cost', {'strength': z, 'cost': c_, 'impl': v})
     # ---- (d4) ONE DUCCIO object called again and again with arbitrary (epoch, n_epochs): every call is the formula of its own
